@@ -441,7 +441,9 @@ func runC16(r *core.Run) {
 	var err error
 	var panicked any
 	viaCLI := h.cli == 1
-	func() {
+	returned := make(chan struct{})
+	go func() {
+		defer close(returned)
 		defer func() { panicked = recover() }()
 		if !viaCLI {
 			out, err = extract.Endorsement(opts)
@@ -471,6 +473,14 @@ func runC16(r *core.Run) {
 			out = io.Out["out.bin"].Bytes()
 		}
 	}()
+	// Every source the extraction is given answers at once (files in a scratch directory, the simulated
+	// getter, the simulated provider). One that does not come back within twenty seconds of real
+	// time is talking to something it was not given: the machine's own network or devices.
+	select {
+	case <-returned:
+	case <-time.After(20 * time.Second):
+		r.Fail("network-when-local-available", "does-not-return", "log=%s var=%s quote=%s provider=%s getter=%s force=%v cli=%v: the extraction has not returned after 20 s although every source it was configured with answers immediately — it is waiting for something outside them (a real network request, say)", logS, varS, quoteS, provS, getS, force, viaCLI)
+	}
 	hostile := logS != "raw+variable+uri" && logS != "variable+uri" || varS != "present" || quoteS == "garbage" || quoteS == "none" || provS == "failing" || getS != "ok"
 	where := fmt.Sprintf("log=%s var=%s quote=%s provider=%s getter=%s force=%v filter=%q cli=%v", logS, varS, quoteS, provS, getS, force, filter, viaCLI)
 	r.Eventf("extract %s -> err=%v out=%d bytes, %d requests", where, err != nil, len(out), len(net.Requests))
